@@ -31,7 +31,9 @@ LEVEL_NOTE = (
     "pending asyncio tasks named after it); after a transition away from CONNECTED a registered restart_after_reconnect task has no live "
     "instance and makes no target call until the next CONNECTED; each CONNECTED transition (and each start_task while connected) gives "
     "exactly one new instance whose target is entered (exactly once without repeat_after); remove_task/stop leave nothing pending and no "
-    "later target call. Not judged: anything after an explicit start_task while not connected until the next CONNECTED transition; "
+    "later target call. A task with wait_for_connection=True never enters its "
+    "target while the state is not CONNECTED (DISCONNECTED, CONNECTING, never connected), whoever started it. Not judged: start counts "
+    "after an explicit start_task while not connected until the next CONNECTED transition (tasks without wait_for_connection may run then); "
     "repeat timing; targets that await during cancellation clean-up (recorded); an instance that swallowed its cancellation or cancelled "
     "itself from inside is given the grace of its own remaining awaits for the nesting rule only (everything created after the cancel "
     "is tracked and must be gone after the next loss/remove/stop); windows whose outcome depends on the order of two timers "
@@ -81,7 +83,8 @@ class Probe:
 
     def _enter(self) -> None:
         self.alive += 1
-        self.log.append((self._now(), "enter", self.idx, (self.alive - self.in_grace, self.alive)))
+        state = self.registry.xknx.connection_manager.state if self.registry is not None else None
+        self.log.append((self._now(), "enter", self.idx, (self.alive - self.in_grace, self.alive, state)))
 
     def _exit(self, how: str) -> None:
         self.alive -= 1
@@ -289,6 +292,7 @@ def judge(ctx, case, log, marks, wit) -> None:
         # target's doing, not the registry's -> recorded only (like targets that await during clean-up)
         recorded_only = spec["slow_cleanup"] or (beh in ("swallow", "swallow_await") and spec["repeat"] is not None)
         transition_times = [m["t"] for m in marks if m["transition"]]
+        connected_instants = [m["t"] for m in marks if m["transition"] and m["state"] == CONNECTED]
         # ---- O1: never two instances (target nesting); an instance that swallowed its cancellation and is finishing its own
         # remaining awaits (bounded grace) does not count, anything created after the cancel does
         for (t, kind, idx, extra) in log:
@@ -296,7 +300,19 @@ def judge(ctx, case, log, marks, wit) -> None:
                 continue
             if kind == "enter":
                 ctx.count("target_enters")
-                live, total = extra
+                live, total, state_at_enter = extra
+                # a task registered with wait_for_connection promises not to run its target without a connection, whoever
+                # started it and whichever non-connected state it is (never connected / DISCONNECTED / CONNECTING)
+                if spec["wait_conn"]:
+                    if state_at_enter == CONNECTED:
+                        ctx.count("wait_for_connection_target_entered_while_connected")
+                    elif any(abs(t - tt) < 1e-9 for tt in connected_instants):
+                        # woken by connected.wait() and the connection lost again before its next loop turn: recorded
+                        ctx.count("wait_for_connection_entry_in_the_instant_of_connect_and_loss_recorded")
+                    else:
+                        ctx.violation(f"target-entered-while-{getattr(state_at_enter, 'name', state_at_enter)}-despite-wait_for_connection",
+                                      dict(wit, task=j, t=t - 1000.0, state=str(state_at_enter)),
+                                      f"task {j} ({opt}): wait_for_connection=True but the target ran at t={t - 1000.0:.3f} while {state_at_enter}")
                 if live > 1:
                     if recorded_only:
                         ctx.count("overlap_with_slow_cleanup_recorded")
@@ -474,7 +490,7 @@ def run(ctx):
                 "rearm_from_inside_target", "selfremove_from_inside_target", "target_raised",
                 "target_finished_in_the_instant_of_a_state_change", "no_instance_after_remove_task-from-target",
                 "behaviour_swallow", "behaviour_swallow_await", "behaviour_rearm", "behaviour_selfremove", "behaviour_raises",
-                "restart_self_from_inside_target", "reconnected_self_from_inside_target", "cancel_self_from_inside_target",
+                "wait_for_connection_target_entered_while_connected", "restart_self_from_inside_target", "reconnected_self_from_inside_target", "cancel_self_from_inside_target",
                 "no_instance_after_cancel-from-target")
     n = ctx.scale(3000, 240000)
     for i in range(n):
